@@ -99,6 +99,11 @@ class Parser:
         """Create a syntax error at current position."""
         return JSSyntaxError(message, self.current.line, self.current.column)
 
+    def _check_assignment_target(self, node: Node) -> None:
+        """Only a variable or a property can be assigned to (or updated by ++/--)."""
+        if not isinstance(node, (Identifier, MemberExpression)):
+            raise self._error("Invalid assignment target")
+
     def _loc(self, node: Node, token: Optional[Token] = None) -> Node:
         """Set source location on a node and return it."""
         t = token or self.previous or self.current
@@ -651,6 +656,7 @@ class Parser:
             TokenType.RSHIFT_ASSIGN,
             TokenType.URSHIFT_ASSIGN,
         ):
+            self._check_assignment_target(expr)
             op = self._advance().value
             right = self._parse_assignment_expression(exclude_in)
             return AssignmentExpression(op, expr, right)
@@ -807,6 +813,7 @@ class Parser:
             TokenType.RSHIFT_ASSIGN,
             TokenType.URSHIFT_ASSIGN,
         ):
+            self._check_assignment_target(left)
             op = self._advance().value
             right = self._parse_assignment_expression(exclude_in)
             left = AssignmentExpression(op, left, right)
@@ -959,6 +966,7 @@ class Parser:
         if self._check(TokenType.PLUSPLUS, TokenType.MINUSMINUS):
             op_token = self._advance()
             argument = self._parse_unary_expression()
+            self._check_assignment_target(argument)
             return UpdateExpression(op_token.value, argument, prefix=True)
 
         return self._parse_postfix_expression()
@@ -1003,6 +1011,7 @@ class Parser:
                 expr = CallExpression(expr, args)
             elif self._check(TokenType.PLUSPLUS, TokenType.MINUSMINUS):
                 # Postfix increment/decrement
+                self._check_assignment_target(expr)
                 op = self._advance().value
                 expr = UpdateExpression(op, expr, prefix=False)
             else:
